@@ -132,9 +132,13 @@ struct NeighbourTask : Task { Arr2 r; int total; NeighbourTask() : total(0) {}
     void execute(size_t start, size_t end) override { for (size_t i = start; i < end; ++i) { r[i + 1] = r[i]; total = total + 1; } } };
 struct DisjointTask : Task { Arr2 r; Arr2 a;
     void execute(size_t start, size_t end) override { for (size_t i = start; i < end; ++i) r[i] = a[i]; } };
+struct ScratchTask : Task { Arr2 r; Arr2 a;
+    void execute(size_t start, size_t end) override { int last = 0; for (size_t i = start; i < end; ++i) { if (a[i] > 0) last = a[i]; r[i] = last; } } };
+struct ScratchOkTask : Task { Arr2 r; Arr2 a;
+    void execute(size_t start, size_t end) override { int tmp = 0; for (size_t i = start; i < end; ++i) { if (a[i] > 0) tmp = a[i]; else tmp = -a[i]; r[i] = tmp; } } };
 struct PythonTask : Task { Arr2 r;
     void execute(size_t start, size_t end) override { for (size_t i = start; i < end; ++i) { r[i] = 0; } PyErr_SetString(nullptr, "x"); } };
 inline void run_good(FixedArray<int> &r, const FixedArray<int> &a) { size_t len = r.match_dimension(a); GoodTask t(r, a); dispatchTask(t, len); }
 inline void run_bad(FixedArray<int> &r, const FixedArray<int> &a) { size_t len = r.len(); GoodTask t(r, a); dispatchTask(t, len); }
-inline void run_others(FixedArray<int> &r) { IgnoresStartTask t(r); dispatchTask(t, r.len()); NeighbourTask n; DisjointTask d; PythonTask p; n.execute(0, 1); d.execute(0, 1); p.execute(0, 1); }
+inline void run_others(FixedArray<int> &r) { IgnoresStartTask t(r); dispatchTask(t, r.len()); NeighbourTask n; DisjointTask d; PythonTask p; ScratchTask s1; ScratchOkTask s2; n.execute(0, 1); d.execute(0, 1); p.execute(0, 1); s1.execute(0, 1); s2.execute(0, 1); }
 }
